@@ -2,7 +2,7 @@
 # usage: tools/seed_batch.sh "<checks>" <seed-id>...   — runs try_seed sequentially, one summary line per seed
 checks=$1; shift
 for s in "$@"; do
-  python3 /verif/tools/try_seed.py /verif/seeded/$s --checks $checks 2>&1 | python3 -c "
+  python3 $(dirname $0)/try_seed.py $(dirname $0)/../seeded/$s --checks $checks 2>&1 | python3 -c "
 import json,sys
 try:
     r=json.load(sys.stdin); print('$s', {k:r.get(k) for k in ('confirmed','suite_ok','demo_mutant_rc','demo_clean_rc','caught_by')}, r.get('apply_out','')[:100], flush=True)
